@@ -85,25 +85,37 @@ def _alarm(signum, frame):
 
 
 def guarded(fn, *args, timeout: float = 5.0, **kw):
-    """Run fn(*args) in-process with a wall-clock limit.  Returns ('ok', value) | ('exc', type, msg) |
-    ('hang',).  Pure-Python loops are interruptible by the signal handler."""
+    """Run fn(*args) in-process under a time limit.  Returns ('ok', value) | ('exc', type, msg) | ('hang',).
+    The limit is `timeout` seconds of CPU time of this process (ITIMER_PROF), so that a loaded machine - other checks,
+    coqc shards and worker pools running next to this one - cannot turn a slow call into a reported hang; a genuine
+    non-terminating loop burns CPU and is stopped after `timeout` CPU-seconds exactly as before.  A wall-clock backstop
+    (max(20 x timeout, 300 s)) catches a call that blocks without using CPU.  Pure-Python loops are interruptible by
+    the signal handlers."""
     old = signal.signal(signal.SIGALRM, _alarm)
-    signal.setitimer(signal.ITIMER_REAL, timeout)
+    oldp = signal.signal(signal.SIGPROF, _alarm)
+    signal.setitimer(signal.ITIMER_REAL, max(20.0 * timeout, 300.0))
+    signal.setitimer(signal.ITIMER_PROF, timeout)
+
+    def _off():
+        signal.setitimer(signal.ITIMER_PROF, 0)
+        signal.setitimer(signal.ITIMER_REAL, 0)
+
     try:
         v = fn(*args, **kw)
-        signal.setitimer(signal.ITIMER_REAL, 0)
+        _off()
         return ("ok", v)
     except Hang:
         return ("hang",)
     except RecursionError as e:
-        signal.setitimer(signal.ITIMER_REAL, 0)
+        _off()
         return ("exc", "RecursionError", str(e)[:200])
     except Exception as e:  # noqa: BLE001
-        signal.setitimer(signal.ITIMER_REAL, 0)
+        _off()
         return ("exc", type(e).__name__, str(e)[:200])
     finally:
-        signal.setitimer(signal.ITIMER_REAL, 0)
+        _off()
         signal.signal(signal.SIGALRM, old)
+        signal.signal(signal.SIGPROF, oldp)
 
 
 def use_repo():
